@@ -138,3 +138,9 @@ C16L += induction(
                                 "T": "[Conditional(Eq(ORD[j - 1].symbol, ORD[j - 1].value), ORD[j - 1].replacement, expr)]",
                                 "env": "env", "j": "len(cond_list(ORD, expr, j - 1))"})],
 )
+
+C13L = induction(
+    "C13.frozen_after_break", {"SA": "Seq[Atom]", "VALS": "Dict[Name,Int]", "n0": "Int", "N": "Int", "i": "Int"},
+    "implies(i >= 0 and i <= j and mv_broken(SA, VALS, n0, N, i), "
+    "mv_broken(SA, VALS, n0, N, j) and mv_emit(SA, VALS, n0, N, j) == mv_emit(SA, VALS, n0, N, i))",
+)
